@@ -189,6 +189,22 @@ struct Outstanding {
     body: RequestBody,
 }
 
+/// The harness's own notion of "contactable in the node's IP mode" (written from the crate's
+/// documentation, not calling it): an IPv4 node needs a UDP4 socket, an IPv6 node a UDP6 socket
+/// whose address is not an IPv4-mapped one, a dual-stack node either (IPv6 preferred).
+fn contactable(m: Mode, e: &Enr) -> Option<SocketAddr> {
+    let canon6 = e.udp6_socket().filter(|s| {
+        let o = s.ip().octets();
+        !(o[..10].iter().all(|b| *b == 0) && o[10] == 0xff && o[11] == 0xff)
+    });
+    match m {
+        Mode::Ip4 => e.udp4_socket().map(SocketAddr::V4),
+        Mode::Ip6 => canon6.map(SocketAddr::V6),
+        Mode::Dual => canon6.map(SocketAddr::V6).or_else(|| e.udp4_socket().map(SocketAddr::V4)),
+    }
+}
+
+#[allow(dead_code)]
 fn ip_mode(m: Mode) -> IpMode {
     match m {
         Mode::Ip4 => IpMode::Ip4,
@@ -201,7 +217,6 @@ async fn run(case: &Case, rep: &mut CaseReport) -> Option<(String, String)> {
     reset_globals();
     let filt = filter_fn(case.filter);
     let mut s = Svc::new(SvcConfig { key_idx: 0, mode: case.mode, table_filter: Some(filt), ..Default::default() }).await;
-    let mode = ip_mode(case.mode);
     let local_id = s.id;
     let mut allowed: HashSet<ids::Id> = HashSet::new();
     let mut outstanding: Vec<Outstanding> = Vec::new();
@@ -243,7 +258,7 @@ async fn run(case: &Case, rep: &mut CaseReport) -> Option<(String, String)> {
                 allowed.insert(id.raw());
                 network_learnt = true;
                 if verifies {
-                    if !filt(&session_enr) || mode.get_contactable_addr(&session_enr).is_none() {
+                    if !filt(&session_enr) || contactable(case.mode, &session_enr).is_none() {
                         nontrivial = true;
                         rep.class("established-with-record-failing-filter-or-not-contactable");
                     }
@@ -379,7 +394,7 @@ async fn run(case: &Case, rep: &mut CaseReport) -> Option<(String, String)> {
             if enr.node_id() != *id {
                 return Some(("admission/record-of-other-node-stored".into(), format!("entry {id} stores the record of {}", enr.node_id())));
             }
-            if mode.get_contactable_addr(enr).is_none() {
+            if contactable(case.mode, enr).is_none() {
                 return Some((
                     "admission/entry-not-contactable".into(),
                     format!("entry {id} (udp4 {:?}, udp6 {:?}) is not contactable in mode {:?} (after {step:?})", enr.udp4_socket(), enr.udp6_socket(), case.mode),
@@ -402,10 +417,10 @@ async fn run(case: &Case, rep: &mut CaseReport) -> Option<(String, String)> {
         if let (Some((iid, src)), true) = (incoming_src, case.mode != Mode::Dual) {
             if !prev.contains_key(&iid) {
                 if let Some(e) = now.get(&iid) {
-                    if mode.get_contactable_addr(e) != Some(src) {
+                    if contactable(case.mode, e) != Some(src) {
                         return Some((
                             "admission/incoming-session-address-differs-from-source".into(),
-                            format!("node admitted through an incoming session from {src} has the record address {:?}", mode.get_contactable_addr(e)),
+                            format!("node admitted through an incoming session from {src} has the record address {:?}", contactable(case.mode, e)),
                         ));
                     }
                     rep.class("admitted-through-incoming-session");
